@@ -76,6 +76,19 @@ def compile_one(args):
 
 
 def run(ctx, group):
+    """Serialised across processes: the library artefact in the shared cache is rebuilt per tree, and a concurrent
+    run (another property, or a scratch tree) must not replace it while witnesses are being compiled against it."""
+    import fcntl
+    os.makedirs(facts.CACHE, exist_ok=True)
+    with open(os.path.join(facts.CACHE, "witness.lock"), "w") as lock:
+        fcntl.flock(lock, fcntl.LOCK_EX)
+        try:
+            return _run(ctx, group)
+        finally:
+            fcntl.flock(lock, fcntl.LOCK_UN)
+
+
+def _run(ctx, group):
     import cases  # /verif/witness/cases.py
     rep = Report("R-WITNESS", "compile-fail / compile-pass witnesses: every failing program fails with the expected "
                  "diagnostic and its twin, which differs only in the offending token, builds")
